@@ -486,3 +486,80 @@ Proof.
   - intros line ->. reflexivity.
 Qed.
 Print Assumptions C06_cli_outcomes.
+
+(* ====== ties to the source: BEGIN (written by bin/mkties) ====== *)
+(* The Go functions named here are translated into Gallina from /repo's source on every run
+   (tools/gen -> Gen/Code/<Eco>.v for loop-free functions, Gen/Loops/<Eco>.v for functions with
+   loops and index expressions, where a panic is Panic and a loop takes fuel); Tie/<Eco>.v,
+   Tie/<Eco>Range.v and Tie/Loops/<Eco>.v prove each translation equal to the model the theorems
+   above speak about (and, for the loop functions: no panic, termination within a linear bound).
+   If the code changes so that a tie no longer holds, this file no longer checks. *)
+Require Verif.Tie.Loops.Alpine.
+Require Verif.Tie.Loops.Alpm.
+Require Verif.Tie.Loops.Cargo.
+Require Verif.Tie.Loops.Conan.
+Require Verif.Tie.Loops.ConanRange.
+Require Verif.Tie.Loops.Cran.
+Require Verif.Tie.Loops.Debian.
+Require Verif.Tie.Loops.Gem.
+Require Verif.Tie.Loops.Golang.
+Require Verif.Tie.Loops.Hex.
+Require Verif.Tie.Loops.Maven.
+Require Verif.Tie.Loops.Npm.
+Require Verif.Tie.Loops.Nuget.
+Require Verif.Tie.Loops.Pypi.
+Require Verif.Tie.Loops.Rpm.
+Require Verif.Tie.Loops.Semver.
+Definition C06_tie_loops_alpine_hasLeadingZero_no_panic := Verif.Tie.Loops.Alpine.loops_alpine_hasLeadingZero_no_panic.
+Print Assumptions C06_tie_loops_alpine_hasLeadingZero_no_panic.
+Definition C06_tie_loops_alpine_compareNumericArraysNumeric_no_panic := Verif.Tie.Loops.Alpine.loops_alpine_compareNumericArraysNumeric_no_panic.
+Print Assumptions C06_tie_loops_alpine_compareNumericArraysNumeric_no_panic.
+Definition C06_tie_loops_alpine_compareSuffixArrays_no_panic := Verif.Tie.Loops.Alpine.loops_alpine_compareSuffixArrays_no_panic.
+Print Assumptions C06_tie_loops_alpine_compareSuffixArrays_no_panic.
+Definition C06_tie_loops_alpm_isAlphaSegment_no_panic := Verif.Tie.Loops.Alpm.loops_alpm_isAlphaSegment_no_panic.
+Print Assumptions C06_tie_loops_alpm_isAlphaSegment_no_panic.
+Definition C06_tie_loops_alpm_compareSegments_no_panic := Verif.Tie.Loops.Alpm.loops_alpm_compareSegments_no_panic.
+Print Assumptions C06_tie_loops_alpm_compareSegments_no_panic.
+Definition C06_tie_loops_alpm_compareSegmentBySegment_no_panic := Verif.Tie.Loops.Alpm.loops_alpm_compareSegmentBySegment_no_panic.
+Print Assumptions C06_tie_loops_alpm_compareSegmentBySegment_no_panic.
+Definition C06_tie_loops_cargo_comparePrereleaseIdentifiers_no_panic := Verif.Tie.Loops.Cargo.loops_cargo_comparePrereleaseIdentifiers_no_panic.
+Print Assumptions C06_tie_loops_cargo_comparePrereleaseIdentifiers_no_panic.
+Definition C06_tie_loops_conan_naturalCompare_no_panic := Verif.Tie.Loops.Conan.loops_conan_naturalCompare_no_panic.
+Print Assumptions C06_tie_loops_conan_naturalCompare_no_panic.
+Definition C06_tie_loops_conan_compareVersionParts_no_panic := Verif.Tie.Loops.Conan.loops_conan_compareVersionParts_no_panic.
+Print Assumptions C06_tie_loops_conan_compareVersionParts_no_panic.
+Definition C06_tie_loops_conan_comparePrerelease_no_panic := Verif.Tie.Loops.Conan.loops_conan_comparePrerelease_no_panic.
+Print Assumptions C06_tie_loops_conan_comparePrerelease_no_panic.
+Definition C06_tie_loops_conan_tildeMatch_no_panic := Verif.Tie.Loops.ConanRange.loops_conan_tildeMatch_no_panic.
+Print Assumptions C06_tie_loops_conan_tildeMatch_no_panic.
+Definition C06_tie_loops_conan_caretMatch_no_panic := Verif.Tie.Loops.ConanRange.loops_conan_caretMatch_no_panic.
+Print Assumptions C06_tie_loops_conan_caretMatch_no_panic.
+Definition C06_tie_loops_cran_compare_no_panic := Verif.Tie.Loops.Cran.loops_cran_compare_no_panic.
+Print Assumptions C06_tie_loops_cran_compare_no_panic.
+Definition C06_tie_loops_debian_no_panic := Verif.Tie.Loops.Debian.loops_debian_no_panic.
+Print Assumptions C06_tie_loops_debian_no_panic.
+Definition C06_tie_loops_gem_removeTrailingZeros_no_panic := Verif.Tie.Loops.Gem.loops_gem_removeTrailingZeros_no_panic.
+Print Assumptions C06_tie_loops_gem_removeTrailingZeros_no_panic.
+Definition C06_tie_loops_gem_split_no_panic := Verif.Tie.Loops.Gem.loops_gem_split_no_panic.
+Print Assumptions C06_tie_loops_gem_split_no_panic.
+Definition C06_tie_loops_gem_compareSegmentArrays_no_panic := Verif.Tie.Loops.Gem.loops_gem_compareSegmentArrays_no_panic.
+Print Assumptions C06_tie_loops_gem_compareSegmentArrays_no_panic.
+Definition C06_tie_loops_gem_compare_no_panic := Verif.Tie.Loops.Gem.loops_gem_compare_no_panic.
+Print Assumptions C06_tie_loops_gem_compare_no_panic.
+Definition C06_tie_loops_golang_comparePrerelease_no_panic := Verif.Tie.Loops.Golang.loops_golang_comparePrerelease_no_panic.
+Print Assumptions C06_tie_loops_golang_comparePrerelease_no_panic.
+Definition C06_tie_loops_hex_comparePreRelease_no_panic := Verif.Tie.Loops.Hex.loops_hex_comparePreRelease_no_panic.
+Print Assumptions C06_tie_loops_hex_comparePreRelease_no_panic.
+Definition C06_tie_loops_maven_trimTrailingNulls_no_panic := Verif.Tie.Loops.Maven.loops_maven_trimTrailingNulls_no_panic.
+Print Assumptions C06_tie_loops_maven_trimTrailingNulls_no_panic.
+Definition C06_tie_loops_npm_comparePrerelease_no_panic := Verif.Tie.Loops.Npm.loops_npm_comparePrerelease_no_panic.
+Print Assumptions C06_tie_loops_npm_comparePrerelease_no_panic.
+Definition C06_tie_loops_nuget_comparePrerelease_no_panic := Verif.Tie.Loops.Nuget.loops_nuget_comparePrerelease_no_panic.
+Print Assumptions C06_tie_loops_nuget_comparePrerelease_no_panic.
+Definition C06_tie_loops_pypi_compareReleaseVersions_no_panic := Verif.Tie.Loops.Pypi.loops_pypi_compareReleaseVersions_no_panic.
+Print Assumptions C06_tie_loops_pypi_compareReleaseVersions_no_panic.
+Definition C06_tie_loops_rpm_compareRPMVersionString_no_panic := Verif.Tie.Loops.Rpm.loops_rpm_compareRPMVersionString_no_panic.
+Print Assumptions C06_tie_loops_rpm_compareRPMVersionString_no_panic.
+Definition C06_tie_loops_semver_comparePrerelease_no_panic := Verif.Tie.Loops.Semver.loops_semver_comparePrerelease_no_panic.
+Print Assumptions C06_tie_loops_semver_comparePrerelease_no_panic.
+(* ====== ties to the source: END ====== *)
